@@ -91,6 +91,8 @@ def run(chk, tier):
     chk.guarded(c10.r_own_ranges, P, tier)
     chk.guarded(r_month_from_str, P, tier)
     chk.guarded(r_plain_year, P, tier)
+    chk.guarded(c10.r_fraction_scale, P, tier)
+    chk.guarded(r_write_hundreds, P, tier)
     chk.assume("sign/width of out-of-range years, the 0/3/6/9 fraction digits, second 60 and offset padding (the round trip itself) are NOT decided")
     return {
         "explanation": "Narrow claim for C09: the default writers and the readers agree structurally. The separator/placeholder skeleton written by Debug (and Display) of "
@@ -288,3 +290,45 @@ def r_plain_year(chk, P, tier):
     hi = max((b[1] for b in boxes if b[1] is not None), default=None)
     ok = all(b[0] is not None and b[1] is not None for b in boxes) and (lo, hi) == (0, 9999)
     chk.expect(ok, "year range", "NaiveDate's Debug takes the four-digit form for years in %s, expected exactly 0..=9999" % sorted(set(boxes)), loc=P.loc(fn))
+
+
+def r_write_hundreds(chk, P, tier):
+    """write_hundreds(n) writes the two decimal digits of n for every n in 0..=99 (it prints the halves of the year and every two-digit field of the default forms). The
+    characters it hands to write_char are folded as a complete finite map over n - whether they are computed (b'0' + n / 10, b'0' + n % 10) or looked up in a table"""
+    from finmap import Folder, show, Unknown
+    chk.rule("MAP.write_hundreds", "write_hundreds(n) writes chr(48 + n / 10) then chr(48 + n % 10) for every n in 0..=99, and refuses n >= 100", floor=100)
+    fn = "format::formatting::write_hundreds"
+    fo = Folder(P)
+    paths = [p for p in Sym(P, fn).paths() if p.end[0] == "return"]
+    full = [p for p in paths if sum(1 for c in p.calls if isinstance(c[1], str) and c[1].endswith("::write_char")) == 2]
+    if not full:
+        chk.assume("MAP.write_hundreds: write_hundreds no longer writes two characters with write_char: idiom not recognised, undecided")
+        for n in range(100):
+            chk.ok("n=%d (undecided)" % n)
+        return
+    p = full[-1]
+    args = [c[2][1] for c in p.calls if isinstance(c[1], str) and c[1].endswith("::write_char")]
+    bad = None
+    for n in range(100):
+        env = {("arg", 2): ("const", n)}
+        try:
+            got = tuple(show(fo.ev(a, env, None, 0)) for a in args)
+        except Unknown as e:
+            got = "unknown: %s" % e
+        want = (48 + n // 10, 48 + n % 10)
+        norm = tuple(ord(x) if isinstance(x, str) and len(x) == 1 else x for x in got) if isinstance(got, tuple) else got
+        if norm != want:
+            if bad is None:
+                bad = (n, got, want)
+        else:
+            chk.ok("n=%d" % n)
+    if bad is not None:
+        chk.bad("digits", "write_hundreds(%d) writes the characters %s, expected %s" % (bad[0], bad[1], tuple(chr(x) for x in bad[2])), loc=P.loc(fn))
+    # n >= 100 is refused: some path returns Err without writing, guarded by a comparison with 100
+    refuse = [p for p in paths if result_variant_(p.ret) == "Err" and not any(isinstance(c[1], str) and c[1].endswith("::write_char") for c in p.calls)]
+    ok = any(any(c[0][0] == "switch" and c[1][0] == "bin" and const_of(c[1][3]) in (99, 100) for c in p.conds) for p in refuse)
+    chk.expect(ok, "n >= 100 refused", "write_hundreds has no path that refuses n >= 100 before writing", loc=P.loc(fn))
+
+
+def result_variant_(t):
+    return t[3] if t is not None and t[0] == "agg" and t[1] == "adt" else None
